@@ -331,6 +331,8 @@ def run(ctx):
     global JOBS
     if ctx.want("R8"):
         r8(ctx)
+    if ctx.want("R9"):
+        r9(ctx)
     if not ctx.want("R4"):
         return
     rs = ctx.rule("R4", "constructor / accessor agreement and predicate meaning (interpreted, small domains)")
@@ -345,3 +347,47 @@ def run(ctx):
         else:
             rs.unrec("%s: %s" % (name, detail[:120]))
     ctx.floor(rs, 60)
+
+
+# ------------------------------------------------------------------------------------------------------
+# R9: faithful copies.  Rebuilding a formula from its own structure gives the very same object:
+# IdentityDagWalker.walk(f) is f, FormulaManager.normalize(f) is f and f.substitute({}) is f, for every
+# skeleton of the export menu (every operator, n-ary forms, constants of every kind, arrays, functions,
+# quantifiers, parametric sorts).
+def _identity_job(shape_t):
+    from ..proc import Shape
+    shape = Shape(shape_t)
+
+    def call(w, it, f):
+        out = []
+        idw = w.new_walker("pysmt.walkers.identitydag.IdentityDagWalker", w.env)
+        for name, fn in (("IdentityDagWalker.walk", lambda: it.call(it.getattr(idw, "walk"), [f])),
+                         ("FormulaManager.normalize", lambda: it.call(it.getattr(w.mgr, "normalize"), [f])),
+                         ("substitute({})", lambda: it.call(it.getattr(f, "substitute"), [{}]))):
+            try:
+                r = fn()
+                out.append((name, "same" if r is f else "differs", sc.node_str(w, r) if w.is_node(r) else repr(r)))
+            except AbsRaise as ex:
+                out.append((name, "raise", ex.cls_name))
+        return out
+    res = proc.run_proc(shape, call, post=lambda w, f, v, facts: proc.ProcResult(shape, "valid", v), services="full", max_paths=8)
+    if len(res) != 1 or res[0].kind != "valid":
+        return [(repr(shape), "?", "unsupported", "%s %s" % (res[0].kind, str(res[0].detail)[:160]))]
+    return [(repr(shape),) + x for x in res[0].detail]
+
+
+def r9(ctx):
+    rs = ctx.rule("R9", "rebuilding a formula from its structure returns the very same object (identity walker, normalize, empty substitution)")
+    from . import text_deep as td
+    shapes = [sh.t for sh in td.export_shapes()]
+    for res in parallel_map(_identity_job, shapes):
+        for shape, name, kind, detail in res:
+            if kind == "same":
+                rs.ok({"skeleton": shape, "rebuilt_by": name})
+            elif kind == "unsupported":
+                rs.unrec("%s: %s" % (shape, detail))
+            else:
+                ctx.finding(rs, "%s|%s" % (name, shape), "%s of %s %s" % (
+                    name, shape, ("returns the different formula %s" % detail) if kind == "differs" else ("raises %s" % detail)),
+                    "pysmt/walkers/identitydag.py")
+    ctx.floor(rs, 300)
